@@ -21,6 +21,11 @@ def _tweak(rng, c):
         cand = [i for i, t in enumerate(c["tasks"]) if t.get("comp") != ci]
         if cand:
             c["comps"][ci]["extra_tasks"] = rng.sample(cand, rng.choice([1, 1, min(2, len(cand))]))
+    # a component whose parent assembly is not registered in this product (it is never a "top" component, and
+    # nothing walks down to it from one): its state follows its tasks like any other's.  Not with a JSON
+    # operation in the sequence: the saved file would name a component the product does not contain.
+    if c.get("comps") and rng.random() < 0.1 and all(o.get("op") == "simulate" for o in c["ops"]):
+        c["comps"][rng.randrange(len(c["comps"]))]["ghost_parent"] = True
 
 
 K = Kit("C14", _oracle, tweak=_tweak, make_ops=cutoff_ops)
